@@ -1,6 +1,7 @@
 import PyTrie.Model.HexWorld
 import PyTrie.Model.HexTrav
 import PyTrie.Model.HexDb
+import PyTrie.Model.Iter
 /-! Line-protocol front end for the hexary-trie model (commands `hx.*`). One reply line per
     command. Byte strings are lower-case hex (`-` = empty), nibble paths one hex digit per nibble
     (`-` = empty), the batch trie is addressed as `b`, other tries by number. -/
@@ -205,6 +206,12 @@ def step (st : St) (cmd : String) (args : List String) : St × String :=
     | some tg =>
       let its := (itemsOf (w.trieOf tg).tree).map fun e => s!"{pathStr e.1}={toHex e.2}"
       (st, joinOr its ";")
+    | none => bad
+  -- nodes() as the code computes it: the fog + frontier-cache loop
+  | "nodesloop", [tg] =>
+    match parseTarget tg with
+    | some tg =>
+      (st, joinOr ((nodesOf (w.trieOf tg).tree 100000).map fun e => s!"{pathStr e.1}={fmtAnn (annotate e.2)}") ";")
     | none => bad
   | "preorder", [tg] =>
     match parseTarget tg with
